@@ -120,8 +120,9 @@ Obs == ObsOf(active, extra, defsys)
 \* ---- parameters: keywords, else an enclosing rule-bearing context, else declared default ----
 Inherited == {active[i].p : i \in {i \in 1..Len(active) : CtxPool[active[i].ctx].rules # {}}}
 ParamChoices(c, kw) == IF kw # NoParam THEN {kw}
-                       ELSE IF Inherited \ {NoParam} # {} THEN Inherited \ {NoParam}
-                       ELSE {CtxPool[c].default}
+                       \* the enclosing context that lends its parameters may be any active one - also one that
+                       \* does not carry the parameter, in which case the declared default applies
+                       ELSE (Inherited \ {NoParam}) \cup {CtxPool[c].default}
 
 Drop(s, n) == SubSeq(s, (IF n > Len(s) THEN Len(s) ELSE n) + 1, Len(s))
 Log(op, res) == hist' = Append(hist, [op |-> op, res |-> res, stack |-> active', sys |-> defsys',
@@ -159,7 +160,7 @@ Next == /\ Len(hist) < MaxOps
         /\ \/ \E c \in DOMAIN CtxPool, kw \in KwVals \cup {NoParam} :
                 (kw = NoParam \/ CtxPool[c].default # NoParam) /\ (Enable(c, kw) \/ EnableFails(c, kw))
            \/ \E c \in DOMAIN CtxPool : WithEnter(c, NoParam) \/ WithEnterFails(c, NoParam)
-           \/ \E n \in {1, 2} : Disable(n)
+           \/ \E n \in {0, 1, 2} : Disable(n)
            \/ \E how \in {"normal", "raise"} : WithExit(how)
            \/ DefineNew
            \/ \E s \in DOMAIN Systems \cup {"none"} : SetSystem(s)
